@@ -333,6 +333,7 @@ func c13(c *Ctx) {
 	if c.Proofs.ModelBuilt {
 		var err error
 		model, err = h.RunModel(c.Driver, lines)
+		c.CrossAll(lines, model)
 		if err != nil {
 			fmt.Println(err)
 			model = nil
